@@ -367,7 +367,7 @@ register("C01", streams=[Q("child", apis=["find_matches"], src=False, maxlen=5)]
          rule="random JSON documents (depth<=4, shuffled keys, empty containers, falsy scalars) x child-step paths grown by walking the document (75%) or free (25%); non-trivial = at least one result and >=2 steps, or an exception; distinct by scenario hash",
          assumptions=["floats restricted to half-integers", "slice step 0 and bool indices excluded (not supported steps)"])
 register("C02", streams=[Q("rec", apis=["find_matches"], src=False, maxlen=5)],
-         observables=["results"], oracles=[oracles.reiter_oracle, oracles.big_iteration_oracle_for({"kind": "rec", "n": 180000})],
+         observables=["results"], oracles=[oracles.reiter_oracle, oracles.big_iteration_oracle_for({"kind": "rec", "n": 180000}), oracles.reuse_oracle],
          rule="documents with ragged depth and empty containers x paths with >=1 recursive step mixed with all other step kinds; non-trivial as C01")
 register("C03", streams=[Q("filter", pred="custom", apis=["find_matches"], src=False, share=2), Q("filter", pred="mixed", apis=["find_matches"], src=False, share=1),
                          Q("filterpar", pred="custom", apis=["find_matches"], src=None, share=1)],
@@ -392,19 +392,20 @@ register("C12", streams=[Q("all", apis=ALL_APIS, src=True, untraced=0.4, share=3
          rule="pairs (p, q): every API function run on q from the k-th match of p, compared with the specification evaluated from the same match; p+q concatenation checked on the python side")
 register("C13", streams=[Q("parent", apis=["find_matches"], src=None, share=2), Q("parent", apis=ALL_APIS, src=True, share=1, untraced=0.4)],
          observables=["full_results"],
-         extra=[families.MutateFamily("mset", 300, 15000, "set_match from a Match whose target path climbs above the source (outcome, returned location, object graph)")],
+         extra=[families.MutateFamily("mset", 300, 15000, "set_match from a Match whose target path climbs above the source (outcome, returned location, object graph)"),
+                families.BuilderFamily("dag", 300, 15000, "parent steps written through the builders (path / pathd): renderings and selections")],
          rule="paths with parent steps in any position, interleaved with descents, filters and recursion, from a document or a Match; locations incl. the '<-name' trail compared")
 register("C17", streams=[Q("all", apis=["find_matches", "find", "get_match"], src=None)],
-         observables=["results_exc", "leaf_events", "stamps", "tie:trace"], oracles=[oracles.untraced_oracle, oracles.long_scan_oracle, oracles.event_chain_oracle],
+         observables=["results_exc", "leaf_events", "stamps", "tie:trace"], oracles=[oracles.untraced_oracle, oracles.long_scan_oracle, oracles.event_chain_oracle, oracles.deep_oracle],
          rule="full trace event stream (last_match, vertex index, next_match, predicate_match) compared with the machine model; unstamped events compared with the specification stream; traced vs untraced runs compared on the python side")
 register("C20", generated=["Budget"], streams=[Q("all", apis=["find_matches"], src=None, nexts="drain")],
          observables=["attempts_bound", "results_exc", "tie:attempts"], oracles=[oracles.work_bound_oracle, oracles.cyclic_oracle, oracles.deep_oracle],
          extra=[families.GraphFamily("cyclic", 8, 150, "per-next() trace-event count and signal on self-referential structures under the real budget")],
          rule="number of trace events of a drained search compared with the specification's attempt count and with 2 x examinations; cyclic dict/list structures with the real budget as support")
 
-register("C08", extra=[families.MutateFamily("set", 1500, 60000, "outcome and whole object graph of set_ / set_match histories")],
+register("C08", oracles=[oracles.append_many_oracle], extra=[families.MutateFamily("set", 1500, 60000, "outcome and whole object graph of set_ / set_match histories")],
          rule="histories of 1-10 set_/set_match calls (no cascade) on one evolving document; parent part of any step kind, last step key/index incl. negative, ==len, beyond, wrong kind, other step kinds, the root; values fresh or aliases of existing objects; the same expression objects reused across calls; non-trivial = the history changed the document; compared: outcome class, returned value identity, the whole reachable object graph under canonical object numbers after every call")
-register("C09", extra=[families.MutateFamily("cascade", 1500, 60000, "outcome and object graph of cascading set_ / get(store_default) histories")],
+register("C09", oracles=[oracles.append_many_oracle], extra=[families.MutateFamily("cascade", 1500, 60000, "outcome and object graph of cascading set_ / get(store_default) histories")],
          rule="histories of cascading set_/set_match and get(..., store_default=True) on key/index paths that exist up to a random level (wrong type at some level, append vs index 0 vs other indices), interleaved with pops that remove created levels; expression objects reused")
 register("C10", extra=[families.MutateFamily("pop", 1500, 60000, "outcome and object graph of pop / pop_match / set_ histories")],
          rule="histories of pop (with/without default), pop_match (must_match on/off) and set_ on one evolving document; any parent part, any last step, negative indices, the root")
@@ -425,7 +426,7 @@ register("C06", streams=[Q("all", apis=ALL_APIS, src=None, share=1)], n_quick=15
          observables=["results_exc"], oracles=[oracles.snapshot_oracle, oracles.reuse_oracle], generated=["Stores"],
          rule="read-only calls (find / find_matches / get_match / get, traced and untraced, from a document or a Match, any has-family predicates) repeated 2-5 times on the same document and the same path object: deep snapshot (container identities, key order, list contents) before = after every call, the path renders like a never-evaluated twin, later evaluations select what the first did; plus the store table regenerated from the source")
 register("C16", streams=[Q("all", apis=ALL_APIS, src=None, share=1)], n_quick=1500, n_thorough=60000,
-         observables=["results_exc"], oracles=[oracles.documented_oracle, oracles.slice_mutation_oracle, oracles.deep_oracle, oracles.resume_after_loop_oracle],
+         observables=["results_exc"], oracles=[oracles.documented_oracle, oracles.slice_mutation_oracle, oracles.deep_oracle, oracles.resume_after_loop_oracle, oracles.dash_root_oracle],
          extra=[families.MutateFamily("set", 400, 15000, "error classes of set_ / set_match"),
                 families.MutateFamily("pop", 400, 15000, "error classes of pop / pop_match"),
                 families.BuilderFamily("dag", 400, 15000, "PathSyntaxError at construction for unsupported indices")],
